@@ -5,6 +5,7 @@ import (
 	"errors"
 	"fmt"
 	"log/slog"
+	"math"
 )
 
 type ByteSize int64
@@ -45,6 +46,7 @@ func Parse(s string) (ByteSize, error) {
 	num := int64(0)
 	multiplier := int64(1)
 	foundUnit := false
+	foundDigit := false
 
 	for _, r := range s {
 		if isDigit(r) {
@@ -53,7 +55,11 @@ func Parse(s string) (ByteSize, error) {
 			}
 
 			digit := int64(r - '0')
+			if num > (math.MaxInt64-digit)/10 {
+				return 0, fmt.Errorf("%w: number too large in: %s", ErrInvalidFormat, s)
+			}
 			num = num*10 + digit
+			foundDigit = true
 		} else {
 			if foundUnit {
 				return 0, fmt.Errorf("%w in: %s", ErrMultipleUnits, s)
@@ -66,8 +72,15 @@ func Parse(s string) (ByteSize, error) {
 
 			multiplier = unit
 			foundUnit = true
-			break
 		}
+	}
+
+	if !foundDigit {
+		return 0, fmt.Errorf("%w: no digits in: %s", ErrInvalidFormat, s)
+	}
+
+	if num > math.MaxInt64/multiplier {
+		return 0, fmt.Errorf("%w: size too large in: %s", ErrInvalidFormat, s)
 	}
 
 	return ByteSize(num * multiplier), nil
